@@ -15,7 +15,7 @@ from pyvc.values import (B, I, NONE, Obj, V, VBool, VBytes, VExc, VFunc, VInt, V
 
 from . import fsmodel as M
 from .common import ConflictError, POSKeyError, UndoError, inst
-from .fs_format import b8_eq_num, field_eq, slice_is
+from .fs_format import b8_eq_num, field_eq, slice_is, txn
 from .fs_load import bend_axioms, bend_fn, data_val, ghost_of
 from .fs_write import WriteSpec, txn_facts
 
@@ -217,3 +217,44 @@ class UndoRecord(WriteSpec):
 
 SPECS = [UndoRecord]
 INLINE = ['ZODB.FileStorage.FileStorage:FileStorage._undoDataInfo']
+
+
+# ======================================================================================
+class TxnUndoWriteRefusal(WriteSpec):
+    """FileStorage._txn_undo_write, entry guard: a transaction whose status is not ' ' (packed 'p', undone 'u', a
+    checkpoint 'c') is refused with UndoError before anything is staged - _txn_find alone does not keep packed
+    transactions out (it compares the tid before it looks at the status byte).  Transactions with status ' ' are the
+    business of the loop (bounded stand-in) and of _transactionalUndoRecord (proved above)."""
+    func = 'ZODB.FileStorage.FileStorage:FileStorage._txn_undo_write'
+    props = ('C06',)
+    label = 'refusal'
+    callable_contract = False
+
+    def setup(self, c, case=None):
+        h, t = self.mk(c, None, read_only=False)
+        c.ghost['tu'] = {'h': h}
+        return {'self': h.self, 'tpos': c.fresh_int('tpos')}
+
+    def requires(self, c, E):
+        h = c.ghost['tu']['h']
+        arr = c.obj(h.file).f['arr']
+        tp = E['tpos'].t
+        st = txn(arr, tp)['status']
+        return txn_facts(c, h) + [
+            ('a-committed-transaction-header', z3.And(tp >= 4, tp + 23 <= h.pos.t, h.pos.t <= c.obj(h.file).f['size'])),
+            ('its-status-is-not-the-undoable-one', z3.And(st != 32, st >= 0, st < 128))]
+
+    def modifies(self, c, E):
+        h = c.ghost['tu']['h']
+        return {(h.file.id, 'pos')}
+
+    @property
+    def loops(self):
+        # under this contract's precondition the record loop is never reached
+        return {0: LoopSpec(inv=lambda cc, fr: [('refused-before-any-record-is-processed', z3.BoolVal(False))])}
+
+    def outcomes(self, c, E):
+        return [Outcome('refused', 'raise', UndoError)]
+
+
+SPECS.append(TxnUndoWriteRefusal)
